@@ -197,6 +197,7 @@ ADDENDA = {
     'C01': " Later additions: a join with sources_timeout (OFP!SrcTimeout: process({}) after the time-out, ids advanced by sends without input; the switch stale_kept = the code before repair 2b5b6e3 gives a TLC counterexample that is replayed, plus random silent-source runs), a publisher killed inside one publish (1..m-1 of the m messages of a frame set delivered), rejoin points that are blocking applications (timeout=None).",
     'C02': " Later additions: consumers in low-latency mode with a restarted publisher (design mutation ll_prev_stale), the stored relay-rejoin schedule judged by the id a frame was published under, two replicas with one filter id, blocking applications with kills and lost messages.",
     'C03': " Later additions: a relay that returns None and then a set without the sink's explicitly subscribed topics, a required consumer whose process does not exist at first, an independent join with a slower branch under realistic total buffering (SNDHWM + RCVHWM): 80 frames must arrive complete; the same with 700 frames loses frames on the unchanged tree (KNOWN-FINDING C03-join-fast-source-runs-ahead, open).",
+    'C04': " Later additions: blocking applications (timeout=None) as publishers, C04_NoEarlyEvict, replicas with one filter id, required outputs in the stall scenarios; the reachability goal X_NoLiveEviction (a stalled consumer evicted on a sibling's request and registered anew) replayed with state comparison.",
     'C05': " Later additions: a connected listener that stops reading, frames above pyzmq's zero-copy threshold and a transport with back pressure (simzmq flow control, message trackers): the synchronized consumer must get every frame as without the listener; OFP!SubHWM, liveness C05_ListenerCannotHold under FairStalled with the design mutation track_wait (TLC must find the lasso).",
     'C06': " Later additions: a required output next to a non-required consumer that keeps requesting (nothing beyond two in-flight publishes may be published while the required output is missing), a '?'-relay that numbers its own output restarted late behind a slow producer (must catch up at once).",
     'C07': " Later additions: a balanced rejoin that is a relay, a worker ending cleanly mid-stream (exits are part of OFP), blocking applications as splitter/workers/rejoin, stored schedules; the splitter publishing on the endpoint of a worker that has just left (outputs not recomputed after CLOSE) is modelled as the code does it and reached by a TLC reachability goal (X_NoStaleEndpoint) replayed with state comparison.",
